@@ -13,7 +13,10 @@ def run_native_watched(prop, lines, out, flavour="native", env_extra=None, timeo
     """Runs shards of histories, each process under the quiescent-deadlock detector."""
     bins = build.build(flavour, ["pooldrv"])
     exe = bins["pooldrv"]
-    shards = runner.shard(lines, NCPU)
+    # fault-injection histories (thread creation made to fail) each get a fresh process: a process that has already seen
+    # worker threads come and go keeps their stacks cached, and creating a thread then needs no new mapping
+    special = [l for l in lines if "spawnfail=" in l]
+    shards = runner.shard([l for l in lines if "spawnfail=" not in l], NCPU) + [[l] for l in special]
     env = dict(os.environ)
     env.update(env_extra or {})
     tmpdir = os.path.join(build.BUILD, "tmp")
@@ -66,7 +69,9 @@ def run_native_watched(prop, lines, out, flavour="native", env_extra=None, timeo
                     out.violation("C06:" + sig, "driver crashed (rc=%s) in history: %s" % (res.returncode, res.stderr[-300:]),
                                   {"engine": eng, "bin": "pooldrv", "cfg": culprit, "stderr": res.stderr[-2000:]})
                 else:
-                    out.inconclusive_shard("driver crashed rc=%s" % res.returncode)
+                    # a history that ends in a crash or a foreign panic did not "run to completion" either
+                    out.violation("C07:history_aborted:rc=%s" % res.returncode, "the process died (rc=%s) in the middle of a history of broadcasts: %s" % (
+                        res.returncode, res.stderr[-300:]), {"engine": eng, "bin": "pooldrv", "cfg": culprit, "stderr": res.stderr[-2000:]})
         for run in complete:
             out.evaluations += 1
             vs, stats, sigs = PO.check_history(run)
